@@ -20,7 +20,7 @@ META = dict(
           'non-trivial = distinct (logic, argument) whose proof has >= 2 steps and >= 2 branches.'),
     assumptions=['observation is through the public step()/stat()/tree/stats API and the tableau event bus only'],
     min_events={'quick': {'step_checks': 40000, 'finished_checks': 4000, 'logics': 52},
-                'thorough': {'step_checks': 800000, 'finished_checks': 80000, 'logics': 52}},
+                'thorough': {'step_checks': 400000, 'finished_checks': 40000, 'logics': 52}},
     budget=dict(quick=1500, thorough=7200),
     unit_timeout=dict(quick=900, thorough=3000),
 )
